@@ -701,6 +701,33 @@ func main() {
 			e.Op(fmt.Sprintf("tr %d %d", s, ev), ans, tag)
 		}
 	}
+	jc := bfd.VerifConcJitterConsts()
+	e.Op("jitconsts", fmt.Sprintf("%d %d %d", jc[0], jc[1], jc[2]), "jitconsts")
+	for i, n := 0, e.N(3000, 30000); i < n; i++ {
+		iv := int64(r.Range(0, 3))
+		switch r.Intn(4) {
+		case 0:
+			iv = int64(r.Range(1, 1000))
+		case 1:
+			iv = int64(r.Range(1, 4000000)) * 1000 // whole microseconds up to 4 s
+		case 2:
+			iv = int64(r.U64() % (1 << 42))
+		}
+		mult := r.Intn(4)
+		if r.Chance(20) {
+			mult = r.Range(0, 255)
+		}
+		pct := r.Range(0, 30)
+		d, ok := bfd.VerifConcComputeInterval(time.Duration(iv), uint(mult), pct)
+		ans, tag := fmt.Sprint(int64(d)), fmt.Sprintf("jit/mult%d", min(mult, 2))
+		if !ok {
+			ans, tag = "panic", "~jit/panic"
+		} else if mult == 1 && (int64(d) > iv*90/100 || int64(d) < iv*75/100) || mult > 1 && (int64(d) > iv || int64(d) < iv*75/100) {
+			e.Violate("C16/jitter", fmt.Sprintf("computeInterval(%d ns, mult %d) = %d ns: outside the RFC 5880 6.8.7 jitter range", iv, mult, int64(d)),
+				map[string]any{"interval_ns": iv, "detect_mult": mult, "pct": pct})
+		}
+		e.Op(fmt.Sprintf("jit %d %d %d", iv, mult, pct), ans, tag)
+	}
 	for i, n := 0, e.N(4000, 40000); i < n; i++ {
 		p := randDiscPkt(r)
 		op, ans := discOp(p)
